@@ -66,7 +66,7 @@ func TestVerifC05Sched(t *testing.T) {
 	r := verifkit.Start(t, "C05", "sched")
 	defer r.Finish("same scenario family as C01 (2-3 producers x 1-3 batches, 1-2 partitions, buffer/index/cache variations, <=2 upload faults incl. fail-after-effect); after EVERY scheduler step the published end offset of each partition is compared with its previous value and with 1+max footer last-offset of the partition's .kfs objects; distinct = schedule signature; non-trivial = the run delivered >=2 UpdateOffsets for one partition and (had a fault or a flush that found nothing to flush)",
 		"fake S3: atomic puts; published offset = real InMemoryStore.NextOffset")
-	n := r.N(700, 12000)
+	n := r.N(700, 60000)
 	for ci := 0; ci < n; ci++ {
 		rng := r.Rand(ci)
 		cfg := c01Cfg(rng, 2+rng.Intn(2), 1+rng.Intn(3), int32(1+rng.Intn(2)))
@@ -187,7 +187,7 @@ func TestVerifC05Stress(t *testing.T) {
 	r := verifkit.Start(t, "C05", "stress")
 	defer r.Finish("real goroutines (no bubble): 8 producers x 6 produce requests on one partition of a fresh handler per case, ungated fake S3 with ~10% failing uploads decided by the case PRNG; the invariant is evaluated inside every UpdateOffsets call under the store wrapper's lock; non-trivial = case with >= 20 UpdateOffsets calls and at least one failed upload",
 		"interleavings are whatever the Go scheduler produces; uploads are atomic in the fake")
-	n := r.N(150, 3000)
+	n := r.N(150, 8000)
 	for ci := 0; ci < n; ci++ {
 		rng := r.Rand(ci)
 		v := newVS3()
